@@ -9,6 +9,8 @@ statements for every `Codec`.
 -/
 import ConfModel.Lemmas.Convert
 import ConfModel.Lemmas.Base64
+import ConfModel.Lemmas.GetQuery
+import ConfModel.Spec.GetQuery
 import ConfModel.Generated.C18Facts
 import ConfModel.Lemmas.ProtoWire
 namespace ConfModel.Props.C18
@@ -410,6 +412,172 @@ removed, alphabet mapped back, decoded - for every byte string. -/
 theorem get_message_roundtrip (x : Bytes) :
     ConfModel.Base64.decodeURLPadded (ConfModel.Base64.encodeURLPadded x) = some x :=
   ConfModel.Base64.decodeURLPadded_encode x
+
+/-! ### the GET `message` parameter through the library's own (strict) decoders and the query string
+
+`Model/Base64.lean` (URL-safe alphabet as a table of its own, padded and raw encoders, the strict
+decoders, connect-go's `binaryQueryValueReader`), `Model/GetQuery.lean` (`url.QueryEscape`,
+`url.QueryUnescape`, the path of the parameter from raw_request.go to the handler). -/
+
+section GetQuery
+open ConfModel.Base64 ConfModel.GetQuery
+
+/-- `base64.RawURLEncoding`: decoding an encoding returns the bytes, for every byte string. -/
+theorem url_raw_roundtrip (x : List UInt8) : decodeURLRaw (encodeURLRaw x) = some x :=
+  decodeURLRaw_encodeURLRaw x
+
+/-- `base64.URLEncoding` (padded, strict: length a multiple of four, at most two `=` at the end,
+only the URL-safe alphabet): decoding an encoding returns the bytes, for every byte string. -/
+theorem url_padded_roundtrip (x : List UInt8) : decodePaddedWith decCharURL (encodeURL x) = some x :=
+  decodePadded_encodeURL x
+
+/-- connect-go's reader of the parameter (`binaryQueryValueReader`: raw when the length is not a
+multiple of four, padded otherwise) returns the message bytes for BOTH encodings in use: the
+padded one of the reference client's raw request sender and the raw one of connect-go's client. -/
+theorem get_reader_inverts_both_encoders (x : List UInt8) :
+    binaryQueryRead (encodeURL x) = some x ∧ binaryQueryRead (encodeURLRaw x) = some x :=
+  ⟨binaryQueryRead_encodeURL x, binaryQueryRead_encodeURLRaw x⟩
+
+/-- The standard and the URL-safe encoding of the same bytes have the same length and differ at
+most where the standard one has `+` (URL: `-`) or `/` (URL: `_`); the URL-safe one contains neither
+`+` nor `/`, the standard one neither `-` nor `_`. -/
+theorem std_url_differ_only_on_two (x : List UInt8) :
+    (encodeURLRaw x).length = (encode x).length ∧
+    (∀ (i : Nat) (c d : UInt8), (encode x)[i]? = some c → (encodeURLRaw x)[i]? = some d →
+      c = d ∨ (c = 43 ∧ d = 45) ∨ (c = 47 ∧ d = 95)) ∧
+    (∀ d ∈ encodeURLRaw x, d ≠ 43 ∧ d ≠ 47) ∧ (∀ c ∈ encode x, c ≠ 45 ∧ c ≠ 95) := by
+  refine ⟨by simp [encodeURLRaw, encode], ?_, ?_, ?_⟩
+  · intro i c d hc hd
+    simp only [encode, encodeURLRaw, List.getElem?_map, Option.map_eq_some_iff] at hc hd
+    obtain ⟨s, hs, rfl⟩ := hc
+    obtain ⟨s', hs', rfl⟩ := hd
+    have : s = s' := by rw [hs] at hs'; exact Option.some.inj hs'
+    subst this
+    have hlt := sextets_lt _ (toNat_lt x) s (List.mem_of_getElem? hs)
+    rcases (alphabets_differ ⟨s, hlt⟩).1 with h | ⟨_, h1, h2⟩ | ⟨_, h1, h2⟩
+    · exact Or.inl h.symm
+    · exact Or.inr (Or.inl ⟨h1, h2⟩)
+    · exact Or.inr (Or.inr ⟨h1, h2⟩)
+  · intro d hd
+    simp only [encodeURLRaw, List.mem_map] at hd
+    obtain ⟨s, hs, rfl⟩ := hd
+    have := (alphabets_differ ⟨s, sextets_lt _ (toNat_lt x) s hs⟩).2
+    exact ⟨this.1, this.2.1⟩
+  · intro c hc
+    simp only [encode, List.mem_map] at hc
+    obtain ⟨s, hs, rfl⟩ := hc
+    have := (alphabets_differ ⟨s, sextets_lt _ (toNat_lt x) s hs⟩).2
+    exact ⟨this.2.2.1, this.2.2.2⟩
+
+/-- ... and that difference matters: the two alphabets are not interchangeable (a reader over the
+standard alphabet refuses what raw_request.go writes for the bytes FB FF, and the URL-safe
+reader refuses the standard encoding of the same bytes). -/
+theorem alphabet_witness :
+    encodeURL [0xFB, 0xFF] = [45, 95, 56, 61] ∧ encodeStdPadded [0xFB, 0xFF] = [43, 47, 56, 61] ∧
+    binaryQueryRead (encodeURL [0xFB, 0xFF]) = some [0xFB, 0xFF] ∧
+    binaryQueryReadStd (encodeURL [0xFB, 0xFF]) = none ∧
+    binaryQueryRead (encodeStdPadded [0xFB, 0xFF]) = none := by decide
+
+/-- `url.QueryUnescape (url.QueryEscape s) = s` for every byte string. -/
+theorem query_escape_roundtrip (s : List UInt8) : queryUnescape (queryEscape s) = some s :=
+  queryUnescape_queryEscape s
+
+/-- What `url.QueryEscape` writes contains no byte that ends or splits a `key=value` pair
+(`&` `=` `;` `#`) and no space; a `+` or `%` in it is one it wrote itself. -/
+theorem query_escape_safe (s : List UInt8) :
+    ∀ c ∈ queryEscape s, c ≠ 0x26 ∧ c ≠ 0x3D ∧ c ≠ 0x3B ∧ c ≠ 0x23 ∧ c ≠ 0x20 := by
+  intro c hc
+  rcases queryEscape_bytes s c hc with h | rfl | rfl
+  · have := (plain_byte c h).2.2.2
+    refine ⟨?_, ?_, ?_, ?_, ?_⟩ <;> (intro e; subst e; revert this; decide)
+  · decide
+  · decide
+
+/-- The URL-safe alphabet is what its name says: an unpadded URL-safe encoding passes
+`url.QueryEscape` unchanged (only the padding of raw_request.go's padded form is escaped). -/
+theorem url_alphabet_query_safe (x : List UInt8) :
+    queryEscape (encodeURLRaw x) = encodeURLRaw x ∧
+    queryEscape (encodeURL x) = encodeURLRaw x ++ queryEscape (padding (encodeURLRaw x).length) := by
+  have h := queryEscape_plain _ (encodeURLRaw_plain x)
+  refine ⟨h, ?_⟩
+  unfold encodeURL
+  rw [queryEscape_append, h]
+
+/-- THE ROUND TRIP OF THE PARAMETER: for every message (any bytes), with and without base64, the
+value raw_request.go puts into the URI (`base64.URLEncoding` if asked, then `vals.Encode()`) is
+read by the server (`url.ParseQuery`, then connect-go's reader) as the message. -/
+theorem get_wire_roundtrip (b64 : Bool) (msg : List UInt8) : getRead b64 (getWire b64 msg) = some msg := by
+  unfold getRead getWire
+  rw [queryUnescape_queryEscape]
+  cases b64 with
+  | false => rfl
+  | true => exact binaryQueryRead_encodeURL msg
+
+/-- without base64 the parser's reading of `+` matters (protojson writes `bytes` fields in the
+STANDARD alphabet): `+ & = %` and the space are written `%2B %26 %3D %25 +`, and a `+` that was
+NOT escaped would be read as a space. -/
+theorem get_plus_witness :
+    getWire false [0x2B, 0x26, 0x3D, 0x25, 0x20] =
+      [0x25, 0x32, 0x42, 0x25, 0x32, 0x36, 0x25, 0x33, 0x44, 0x25, 0x32, 0x35, 0x2B] ∧
+    getRead false [0x2B] = some [0x20] := by decide
+
+/-- The two definitions of the padded URL-safe encoder (alphabet table of its own / standard
+alphabet with the two characters swapped) are the same function. -/
+theorem encodeURL_eq_swapped (x : List UInt8) : encodeURL x = encodeURLPadded x := by
+  unfold encodeURL encodeURLPadded padding
+  rw [encodeURLRaw_eq_map]
+  rfl
+
+/-- What the driver evaluates on the implementation's output (`Spec/GetQuery.lean`: the value on
+the wire reads back to the message as the specification reads it, stays inside its `key=value`
+pair, and the handler received the message) holds of the model for every message. -/
+theorem get_spec_of_model (b64 : Bool) (msg : List UInt8) :
+    GetQuerySpec.getHolds b64 msg (getWire b64 msg) (getRead b64 (getWire b64 msg)) = true := by
+  have hclosed : GetQuerySpec.wireClosed (getWire b64 msg) = true := by
+    unfold GetQuerySpec.wireClosed getWire
+    rw [List.all_eq_true]
+    intro c hc
+    obtain ⟨h1, h2, h3, h4, h5⟩ := query_escape_safe _ c hc
+    simp [h1, h2, h3, h4, h5]
+  have hreads : GetQuerySpec.wireReads b64 msg (getWire b64 msg) = true := by
+    unfold GetQuerySpec.wireReads getWire
+    rw [queryUnescape_queryEscape]
+    cases b64 with
+    | false => simp [getParam]
+    | true =>
+      simp only [getParam, ↓reduceIte, encodeURL_eq_swapped, decodeURLPadded_encode]
+      simp
+  unfold GetQuerySpec.getHolds GetQuerySpec.received
+  rw [hreads, hclosed, get_wire_roundtrip]
+  simp
+
+/-- The decoding end, for whatever wrote the value: a parameter that is the padded or the raw
+URL-safe encoding of `x` (or, without base64, `x` itself) is read as `x`. -/
+theorem get_reader_spec (b64 : Bool) (p x : List UInt8) (h : GetQuerySpec.encodes b64 p x = true) :
+    readParam b64 p = some x := by
+  unfold GetQuerySpec.encodes at h
+  cases b64 with
+  | false => simp only [Bool.false_eq_true, ↓reduceIte, beq_iff_eq] at h; simp [readParam, h]
+  | true =>
+    simp only [↓reduceIte, Bool.or_eq_true, beq_iff_eq] at h
+    rcases h with rfl | rfl
+    · exact binaryQueryRead_encodeURL x
+    · exact binaryQueryRead_encodeURLRaw x
+
+example : GetQuerySpec.encodes true [45, 95, 56, 61] [0xFB, 0xFF] = true ∧
+    GetQuerySpec.encodes true [45, 95, 56] [0xFB, 0xFF] = true := by decide
+
+set_option maxRecDepth 100000 in
+/-- the alphabets and the escaping of the model are the library's: both encoders called on all 64
+sextets, `url.QueryEscape` called on all 256 bytes (complete tables, regenerated from the tree) -/
+theorem get_tables :
+    Generated.C18Facts.urlAlphabet = (List.range 64).map (fun n => (encCharURL n).toNat) ∧
+    Generated.C18Facts.stdAlphabet = (List.range 64).map (fun n => (encChar n).toNat) ∧
+    Generated.C18Facts.queryEscapeByte =
+      (List.range 256).map (fun n => (queryEscapeByte (UInt8.ofNat n)).map (·.toNat)) := by
+  decide
+
+end GetQuery
 
 /-! ## strict codecs (relative to the underlying marshaller) -/
 
